@@ -30,7 +30,7 @@
 
 extern char **environ;
 
-#define MAXOPS 12
+#define MAXOPS 16
 static kcfg_t cfg;
 static char real_root[600];
 static uint64_t n_sys, n_sys_calls, n_hist, n_hist_files, n_lock, n_helper, n_eval;
@@ -354,11 +354,32 @@ hist_one(const kop_t *ops, int n, int is_replay) {
   vfs_free(v);
 }
 
+/* longer scripted histories: log rotation, flushes, multi-level layouts, compactions, reopen chains, a backup-free mix */
+static const char *conform_scripted[] = {
+  "P0.2 P1.2 P2.2 P0.2 P1.2 F P2.1",
+  "P0.1 F P0.1 F P1.1 F P0.1 F C P2.1",
+  "P0.2 P1.2 P2.2 P0.2 O P1.1 O P2.1",
+  "B[P0.1,D1,P2.2] P1.2 P1.2 P1.2 P1.2 O P0.1",
+  "P0.1 P1.1 F R0:-:- R1:-:- P1.1 F D0 C O",
+  "P0.2 P1.2 P2.2 P0.2 P1.2 P2.2 F P0.2 P1.2 P2.2 F R0:-:- O",
+  NULL
+};
+
 static void
 hist_all(int maxlen) {
   kop_t ops[MAXOPS];
   int len;
   uint64_t idx = 0;
+  {
+    int i;
+    for (i = 0; conform_scripted[i] && !stop_now; i++) {
+      kop_t sops[MAXOPS];
+      int n = khist_parse(sops, MAXOPS, conform_scripted[i]);
+      if (n < 0) vh_die("bad scripted history");
+      if (!drv_mine(idx++)) continue;
+      hist_one(sops, n, 0);
+    }
+  }
   for (len = 0; len <= maxlen && !stop_now; len++) {
     long total = 1, t;
     int i;
